@@ -406,9 +406,12 @@ func genRichLeaf(c *ctx, cw *c08World, q *qc, depth int, base time.Time) {
 		}
 	case r < 9: // attribute values as of an earlier time
 		q.perm, q.at = true, tpoint()
-		q.attr, q.val = "tag", []string{"x", "y", "z"}[c.rng.Intn(3)]
-		if c.rng.Intn(3) == 0 {
+		q.attr, q.val = "tag", []string{"x", "y", "z", "w", "v"}[c.rng.Intn(5)]
+		switch c.rng.Intn(4) {
+		case 0:
 			q.attr, q.val = "camliNodeType", []string{"foo", "bar"}[c.rng.Intn(2)]
+		case 1:
+			q.val, q.numValMin = "", 1+c.rng.Intn(3)
 		}
 	case r < 10:
 		q.fileSize = &[2]int{1 + c.rng.Intn(9), []int{0, 9, 30}[c.rng.Intn(3)]}
